@@ -3,6 +3,7 @@
 import json, sys
 pid, focus, root = sys.argv[1], int(sys.argv[2]), sys.argv[3]
 style = sys.argv[4] if len(sys.argv) > 4 else "any"
+area = sys.argv[5] if len(sys.argv) > 5 else ""
 for l in open('/verif/properties.jsonl'):
     p = json.loads(l)
     if p['id'] == pid:
@@ -24,7 +25,7 @@ Here is a behavioural property the project satisfies today:
   Mechanisms in the code the property rests on (line numbers may have drifted a little):
 {mlist}
 
-Your task: produce ONE realistic, strictly BEHAVIOUR-PRESERVING refactoring of the code that implements this property, the kind of clean-up a maintainer would merge: for example rename local variables or parameters, extract a helper function or inline one, turn an if/else chain into a switch (or back), restructure early returns, change a loop's form (index loop <-> range), reorder statements that are independent of each other, introduce a named constant, hoist a repeated sub-expression into a local, split a long function, merge duplicated code into one helper, re-word log/error texts that nothing depends on. Prefer the code around this mechanism: "{f['name']}" ({f['where']}).{STYLE}
+Your task: produce ONE realistic, strictly BEHAVIOUR-PRESERVING refactoring of the code that implements this property, the kind of clean-up a maintainer would merge: for example rename local variables or parameters, extract a helper function or inline one, turn an if/else chain into a switch (or back), restructure early returns, change a loop's form (index loop <-> range), reorder statements that are independent of each other, introduce a named constant, hoist a repeated sub-expression into a local, split a long function, merge duplicated code into one helper, re-word log/error texts that nothing depends on. {('Work on this part of the code: ' + area + '.') if area else ('Prefer the code around this mechanism: "' + f['name'] + '" (' + f['where'] + ').')}{STYLE}
 
 Hard requirements:
   1. For EVERY input, schedule and configuration the program must behave exactly as before (same outputs, same errors and error classes, same side effects, same concurrency discipline, same allocation/aliasing behaviour that the property could depend on). If you are not sure an edit preserves behaviour, do not make it. Do NOT fix bugs, do NOT add or remove checks, do NOT change constants' values, types of exported things, or the public API.
